@@ -87,4 +87,19 @@ def chainVals : Nat → Tree → Nat → List Nat
       | none => [n.value]
       | some p => n.value :: chainVals fuel t p
 
+/-- `Group.Root()`: every group created by `CreateGroup` stores its parent's root. -/
+def rootOf : Nat → Tree → Nat → Nat
+  | 0, _, i => i
+  | fuel + 1, t, i =>
+    match parentOf t i with
+    | some p => rootOf fuel t p
+    | none => i
+
+/-- `Group.WaitParents()` = `Root().WaitChildren()`. -/
+def waitParentsReturns (t : Tree) (g : Nat) : Bool := waitChildrenReturns t (rootOf t.length t g)
+
+/-- `len(Group.Pools())`: the pools at any depth below the group. -/
+def poolsBelow (t : Tree) (g : Nat) : Nat :=
+  ((List.range t.length).filter (fun q => isPoolAt t q && below t.length t g q)).length
+
 end Hive.WPG
